@@ -50,6 +50,11 @@ func init() { register("C16", propC16) }
 
 const c16Wait = 5 * time.Second
 
+// c16CodeReadd mirrors Driver/C16.lean `codeReadd`: false = the code as it is (D52 open); set both to true when
+// fixes/D52.diff is applied (a restart then resumes shards that have a checkpointed position but were no longer tracked
+// by the splitter, and the harness's own bookkeeping must not count them as finished).
+const c16CodeReadd = false
+
 // c16Stuck is a last-resort bound for waits that always end promptly unless the code under test is stuck.
 const c16Stuck = 6 * time.Second
 
@@ -275,6 +280,23 @@ func (e *kinEnv) startOnce() string {
 		for k := range e.ckDone {
 			e.done[k] = true
 		}
+		if c16CodeReadd {
+			// a shard with a reported position that the splitter no longer tracked (and that discovery will not list
+			// again) is resumed by the repaired splitter: it is not finished in the restored cut
+			var st kinesispb.SplitterState
+			if gproto.Unmarshal(e.ckState, &st) == nil {
+				assigned := map[string]bool{}
+				for _, sh := range st.AssignedShards {
+					assigned[sh.ShardId] = true
+				}
+				for _, b := range e.ckSplit {
+					var pos kinesispb.Shard
+					if gproto.Unmarshal(b, &pos) == nil && !assigned[pos.ShardId] && pos.ShardId <= st.LastAssignedShardId {
+						delete(e.done, c16ShardNum(pos.ShardId))
+					}
+				}
+			}
+		}
 	}
 	if err := e.splitter.Start(ck); err != nil {
 		return "error " + strings.ReplaceAll(err.Error(), "\n", " ")
@@ -338,17 +360,34 @@ func c16Abandoned(out []string) bool {
 	return len(out) > 0 && (out[len(out)-1] == "abandoned" || c16Noisy(out[len(out)-1]))
 }
 
+// c16Discarded counts, per kind of rig outcome, the attempts that c16Retry threw away (reported in the evidence).
+var c16Discarded = struct {
+	sync.Mutex
+	n map[string]int
+}{n: map[string]int{}}
+
 func c16Retry(run func() []string) []string {
 	var out []string
 	for attempt := 0; attempt < 3; attempt++ {
 		out = run()
-		noisy := false
+		noisy := ""
 		for _, o := range out {
-			noisy = noisy || c16Noisy(o)
+			if noisy == "" && c16Noisy(o) {
+				noisy = strings.Fields(o + " x")[0]
+				if strings.Contains(o, "use of closed network connection") || strings.Contains(o, "failed to decode response body") || strings.Contains(o, "connection reset") {
+					noisy = "transport"
+				}
+			}
 		}
-		if !noisy {
+		if noisy == "" {
 			break
 		}
+		c16Discarded.Lock()
+		c16Discarded.n[noisy]++
+		if attempt == 2 {
+			c16Discarded.n["persistent (reported)"]++
+		}
+		c16Discarded.Unlock()
 	}
 	return out
 }
@@ -575,11 +614,10 @@ func (r *cutReader) ReadEvents() ([][]byte, error) {
 func (r *cutReader) AssignSplits(splits []*workerpb.SourceSplit) error {
 	r.mu.Lock()
 	for _, sp := range splits {
+		// appended unconditionally, as the kinesis, embedded and httpapi readers do
 		id, _ := strconv.Atoi(sp.SplitId)
-		if r.find(id) == nil {
-			c, _ := strconv.Atoi(string(sp.Cursor))
-			r.splits = append(r.splits, &cutSplit{id, c, c})
-		}
+		c, _ := strconv.Atoi(string(sp.Cursor))
+		r.splits = append(r.splits, &cutSplit{id, c, c})
 	}
 	r.mu.Unlock()
 	r.assigned <- struct{}{}
@@ -2077,6 +2115,7 @@ func genKin(r *lib.Rng, tier string) lib.Case {
 	}
 	started := false
 	hasCk, restored, reshaped := false, false, false
+	var finishedNow []int // finished since the last checkpoint
 	ckDone := map[int]bool{}
 	doStart := func(name string) {
 		c.Ops = append(c.Ops, name)
@@ -2185,6 +2224,9 @@ func genKin(r *lib.Rng, tier string) lib.Case {
 			c.Ops = append(c.Ops, "finish "+joinInts(ids, ","))
 			for _, i := range ids {
 				g.done[i] = true
+				if i < len(g.parents) {
+					finishedNow = append(finishedNow, i)
+				}
 			}
 		case k < 17:
 			if !started {
@@ -2199,11 +2241,23 @@ func genKin(r *lib.Rng, tier string) lib.Case {
 			if r.Chance(1, 8) && len(st) > 0 {
 				st = append(st, strings.SplitN(st[0], "=", 2)[0]+"=7") // a later state of the same shard overwrites
 			}
+			// The runners report their positions when they handle the barrier, the splitter's part of the checkpoint is
+			// taken when the last acknowledgement arrives: a shard can finish in between, so the checkpoint also holds
+			// positions of shards the splitter has been told are finished (D52).
+			if len(finishedNow) > 0 && r.Chance(1, 2) {
+				for _, i := range finishedNow {
+					if r.Chance(2, 3) {
+						st = append(st, fmt.Sprintf("%d=%d", i, r.Range(1, 99)))
+						c.Tags = append(c.Tags, "kin-state-of-finished")
+					}
+				}
+			}
 			s := "-"
 			if len(st) > 0 {
 				s = strings.Join(st, ",")
 			}
 			c.Ops = append(c.Ops, "ckpt "+s)
+			finishedNow = nil
 			hasCk = true
 			ckDone = map[int]bool{}
 			for i := range g.done {
@@ -2248,12 +2302,10 @@ func genCut(r *lib.Rng, tier string) lib.Case {
 		for i := 0; i < k; i++ {
 			id := next
 			next++
-			if r.Chance(1, 8) && len(splits) > 0 {
-				id = lib.Pick(r, splits) // assigned again: ignored by the reader
-				next--
-			} else {
-				splits = append(splits, id)
-			}
+			// A split is never assigned to a reader twice: the splitters hand every split out once per deployment
+			// (C16.one_reader, partition_disjoint) and a deployment starts with a fresh reader. That is the hypothesis of
+			// C16.cursor_matches_cut; what the appending readers do with a duplicate is outside the property.
+			splits = append(splits, id)
 			l = append(l, fmt.Sprintf("%d@%d", id, lib.Pick(r, []int{0, 0, 3, 40})))
 		}
 		c.Ops = append(c.Ops, "assign "+strings.Join(l, ","))
@@ -2438,6 +2490,9 @@ func propC16() *lib.Prop {
 			// D16d (repaired): LastAssigned never moves backwards, a finished shard is not listed again
 			cs = append(cs, lib.Case{Header: "M C16 kin 2 2", Tags: []string{"kin", "fixed-D16d"},
 				Ops: []string{"start", "split 0 " + mid0, "split 1 " + mid1, "tick", "finish 1", "finish 5", "finish 0", "tick", "tick", "chk"}})
+			// D52 (open): a shard finishes between its runner's barrier and the splitter's part of the checkpoint
+			cs = append(cs, lib.Case{Header: "M C16 kin 1 1", Tags: []string{"kin", "witness-D52", "kin-restore-lineage", "kin-state-of-finished"},
+				Ops: []string{"start", "split 0 100", "tick", "finish 0", "ckpt 0=5", "restore", "chk", "finish 0", "tick", "chk"}})
 			// D16c (open): withheld shards below LastAssigned are lost by a restore
 			cs = append(cs, lib.Case{Header: "M C16 kin 2 2", Tags: []string{"kin", "witness-D16c", "kin-restore-lineage"},
 				Ops: []string{"start", "split 0 " + mid0, "split 1 " + mid1, "tick", "finish 1", "ckpt 0=7,4=9", "split 2 1000", "restore", "finish 0", "tick", "chk"}})
@@ -2455,7 +2510,7 @@ func propC16() *lib.Prop {
 			cs = append(cs, lib.Case{Header: "M C16 cut 4 2 3", Tags: []string{"cut", "cut-bigread"},
 				Ops: []string{"assign 0@0", "readbar3 1 2 0*1001", "readbar3 2 501 0*1600", "readbar2 3 0*2000", "end"}})
 			cs = append(cs, lib.Case{Header: "M C16 cut 2 2 2", Tags: []string{"cut"},
-				Ops: []string{"barrier 1", "assign 0@0,1@5", "read 0,1,0", "barrier 2", "readbar1 3 1,1,0", "readbar2 4 0,0", "assign 2@0,0@9", "read 2,77,0", "barrier 5", "end"}})
+				Ops: []string{"barrier 1", "assign 0@0,1@5", "read 0,1,0", "barrier 2", "readbar1 3 1,1,0", "readbar2 4 0,0", "assign 2@0,3@9", "read 2,77,0,3", "barrier 5", "end"}})
 			grid := lib.Case{Header: "M C16 misc", Tags: []string{"misc", "grid"}}
 			chk := lib.Case{Header: "M C16 misc", Tags: []string{"misc-chk", "grid"}}
 			for l := 0; l <= 9; l++ {
@@ -2552,6 +2607,17 @@ func propC16() *lib.Prop {
 				return false
 			}
 			return true
+		},
+		Extra: func() map[string]any {
+			c16Discarded.Lock()
+			defer c16Discarded.Unlock()
+			d := map[string]int{}
+			total := 0
+			for k, v := range c16Discarded.n {
+				d[k] = v
+				total += v
+			}
+			return map[string]any{"discarded_attempts": total, "discarded_attempts_by_outcome": d}
 		},
 		// which runner gets which split is mechanism; that every split has exactly one is checked by partchk / embchk
 		MObs: func(op string) bool {
